@@ -17,8 +17,11 @@ def gen_reqs(rng, n, profiles, max_callers=6, steps=(25, 60)):
                 touts.append(rng.choice([15, 25, 40, 0]))
             else:
                 touts.append(rng.choice([0, 0, 0, 20, 35]))
+        # one caller in seven brings a foreign FContext (a wrapper outside the library) that is slow to hand out its
+        # op id: it is held inside its own RequestHeader("_opid") while the schedule goes on for the others
+        slow = [1 if k > 1 and rng.random() < 0.15 else 0 for _ in range(k)]
         reqs.append({"seed": rng.randrange(1, 2 ** 31), "callers": k, "steps": rng.randrange(*steps),
-                     "timeouts_ms": touts, "profile": profile})
+                     "timeouts_ms": touts, "profile": profile, "slow": slow})
     return reqs
 
 
